@@ -9,12 +9,12 @@ package strings
 // (repeat counts, pad lengths, allocation sizes) stay below the 2 GiB limit
 // or within the length of an argument.
 
-//@ func containsFunc, containsAnyFunc, containsCharFunc, countFunc, equalFoldFunc, fieldsFunc, hasPrefixFunc, hasSuffixFunc, indexFunc, indexAnyFunc, indexByteFunc, indexCharFunc, joinFunc, lastIndexFunc, lastIndexAnyFunc, lastIndexByteFunc, repeatFunc, titleFunc, toLowerFunc, toTitleFunc, toUpperFunc, trimFunc, trimLeftFunc, trimPrefixFunc, trimRightFunc, trimSpaceFunc, trimSuffixFunc
+//@ func containsFunc, containsAnyFunc, containsCharFunc, countFunc, equalFoldFunc, fieldsFunc, hasPrefixFunc, hasSuffixFunc, indexFunc, indexAnyFunc, indexByteFunc, indexCharFunc, joinFunc, lastIndexFunc, lastIndexAnyFunc, lastIndexByteFunc, titleFunc, toLowerFunc, toTitleFunc, toUpperFunc, trimFunc, trimLeftFunc, trimPrefixFunc, trimRightFunc, trimSpaceFunc, trimSuffixFunc
 //@ requires $args
 //@ opaque String, TypeName
 //@ property C19
 
-//@ func pad, replaceFunc, toValidUTF8Func
+//@ func pad, replaceFunc, toValidUTF8Func, repeatFunc
 //@ requires $args
 //@ opaque String, TypeName
 //@ property C19
